@@ -128,6 +128,9 @@ def check_blank_flags(prog: Program, res: Result, rule: str) -> None:
     # nodes with child blocks that do not set blank explicitly inherit True: their own render must then only render children - covered above
     _check_composite_blank(prog, res, rule)
     _check_suppression_readers(prog, res, rule)
+    from checks.shared import check_buffer_factories_fresh
+
+    check_buffer_factories_fresh(prog, res, rule)
 
 
 RENDER_CALLS = {"render", "render_async"}
